@@ -80,6 +80,21 @@ MUTATIONS = [
     ("c09-revert-fix5", "tokens.py", "        except ValueError:\n            # The token file has been created by another process but is not\n            # written yet: a \"modified\" event will follow\n            logger.debug(\"Token file %s is not complete yet\", path)\n", "", ["C09"]),
     ("c09-revert-fix16", "tokens.py", "                    dependency.name,\n                )\n            else:", "                    dependency.name,\n                )\n                return\n            else:", ["C09", "C06"]),
     ("c09-reclaim-no-delete", "tokens.py", "                process.wait()\n\n            self.delete()", "                process.wait()", ["C09"]),
+    # C12
+    ("c12-revert-fix7", "core/objects.py", "        if self.meta is not None:\n            state_dict[\"meta\"] = self.meta", "        if self.meta:\n            state_dict[\"meta\"] = self.meta", ["C12"]),
+    ("c12-revert-fix14", "core/objects.py", "                o.__xpm__.init_tasks = [\n                    objects[init_task_id]\n                    for init_task_id in definition.get(\"init-tasks\", [])\n                ]", "                pass", ["C12", "C20"]),
+    ("c12-ignored-not-serialized", "core/objects.py", "        jsonfields = state_dict[\"fields\"] = {}\n        for argument, value in self.xpmvalues():\n            with context.push", "        jsonfields = state_dict[\"fields\"] = {}\n        for argument, value in self.xpmvalues():\n            if argument.ignored and not argument.generator:\n                continue\n            with context.push", ["C12"]),
+    ("c12-enum-by-value", "core/objects.py", "                \"value\": value.name,\n            }", "                \"value\": list(type(value))[0].name,\n            }", ["C12"]),
+    ("c12-task-link-not-restored", "core/objects.py", "                if task_id := definition.get(\"task\", None):\n                    o.__xpm__.task = objects[task_id]", "                pass", ["C12"]),
+    ("c12-float-as-int", "core/objects.py", "        elif isinstance(value, (int, float, str)):\n            return value\n\n        elif isinstance(value, Enum):", "        elif isinstance(value, float) and value == int(value) if isinstance(value, float) and value == value and abs(value) < 1e15 else False:\n            return int(value)\n\n        elif isinstance(value, (int, float, str)):\n            return value\n\n        elif isinstance(value, Enum):", ["C12"]),
+    ("c12-tags-not-nested", "core/objects.py", "                super().__init__(recurse_task=True)\n                self.tags = {}", "                super().__init__(recurse_task=False)\n                self.tags = {}", ["C12"]),
+    # C13
+    ("c13-preprocess-always", "core/objects.py", "            if self.objects.is_constructed(id(config)):\n                return False, self.objects.retrieve(id(config))\n            return True, None", "            return True, None", ["C13"]),
+    ("c13-pretask-dedup-by-position", "core/objects.py", "                for pre_task_id in definition.get(\"pre-tasks\", []):\n                    if pre_task_id not in completed_pretasks:", "                for ix, pre_task_id in enumerate(definition.get(\"pre-tasks\", [])):\n                    if ix not in completed_pretasks:\n                        completed_pretasks.add(ix)\n                        pre_tasks.append(objects[pre_task_id])\n                    if False:", ["C13"]),
+    ("c13-init-before-pre", "core/objects.py", "                for pre_task in pre_tasks:\n                    logger.info(\"Executing pre-task %s\", type(pre_task))\n                    pre_task.execute()\n                for init_task in init_tasks:\n                    logger.info(\"Executing init task %s\", type(init_task))\n                    init_task.execute()", "                for init_task in init_tasks:\n                    init_task.execute()\n                for pre_task in pre_tasks:\n                    pre_task.execute()", ["C13"]),
+    ("c13-postinit-before-attrs", "core/objects.py", "            for key, value in values.items():\n                setattr(stub, key, value)\n\n            # Call __post_init__\n            stub.__post_init__()", "            stub.__post_init__()\n            for key, value in values.items():\n                setattr(stub, key, value)", ["C13"]),
+    ("c13-pretask-gathered-by-key", "core/objects.py", "                self.pre_tasks[id(pre_task)] = self.stub(pre_task)", "                self.pre_tasks[len(self.pre_tasks)] = self.stub(pre_task)", ["C13"]),
+    ("c13-no-store-memo", "core/objects.py", "            o = self.objects.retrieve(id(config))\n\n            if o is None:", "            o = None\n\n            if o is None:", ["C13"]),
     # C14
     # (equivalent, not used: Sealer(recurse_task=False) - producing tasks are always sealed by their own submission)
     ("c14-walk-skips-pretasks", "core/objects.py", "            if info.pre_tasks:\n                with self.map(\"__pre_tasks__\"):\n                    self(info.pre_tasks)", "            if False:\n                pass", ["C14", "C13"]),
